@@ -368,4 +368,18 @@ Section Source.
         | _ => None
         end
     end.
+
+  (* get_source_field: plain coordinates (tuple / list / ndarray) -> Tx* instance.
+     source.size == 5: the `length` keyword is forwarded; size > 6: TxElectricWire
+     (whatever `electric` says); otherwise TxElectricDipole / TxMagneticDipole. *)
+  Inductive PlainIn : Type :=
+  | PI_dip (inp : DipIn)                   (* size 5 or 6 *)
+  | PI_wire (pts : list (P3 F)).           (* size > 6: (n, 3) electrodes *)
+
+  Definition plain_points (electric : bool) (inp : PlainIn) (length : F) : option (list (P3 F)) :=
+    match inp with
+    | PI_wire pts => Some pts
+    | PI_dip d => dipole_points (negb electric) d
+                    (match d with DPoint _ _ _ => length | _ => 1 end)
+    end.
 End Source.
